@@ -866,35 +866,55 @@ main(int argc, char **argv)
 	struct {
 		const char *name;
 		const int  *p;
-		int         pl, dq, dt;
+		int         pl, dq, dt, dx; // depth quick / thorough / thorough extra
 	} SC[] = {
-		{ "surv-P0", NULL, 0, 3, 4 },
-		{ "surv-P1", P1, 3, 3, 4 },
-		{ "surv-P2", P2, 4, 2, 4 },
-		{ "surv-P3", P3, 5, 2, 4 },
-		{ "surv-P4", P4, 6, 2, 3 },
+		{ "surv-P0", NULL, 0, 3, 4, 0 },
+		{ "surv-P1", P1, 3, 3, 4, 0 },
+		{ "surv-P2", P2, 4, 2, 3, 4 },
+		{ "surv-P3", P3, 5, 2, 3, 4 },
+		{ "surv-P4", P4, 6, 2, 3, 0 },
 	};
-	for (unsigned i = 0; i < sizeof(SC) / sizeof(SC[0]); i++) {
-		char name[40];
-		int  d = T ? SC[i].dt : SC[i].dq;
+	char     name[40];
+	unsigned nsc = sizeof(SC) / sizeof(SC[0]);
+	// cheap scenarios first (thorough: the depth-4 ones follow below)
+	for (unsigned i = 0; i < nsc; i++) {
+		int d = T ? SC[i].dt : SC[i].dq;
 		snprintf(name, sizeof(name), "%s-d%d", SC[i].name, d);
-		if (vx_time_left() < (T ? 300 : 15))
-			break;
+		if ((T && d > 3) || vx_time_left() < 15)
+			continue;
 		explore(name, run_surv, SC[i].p, SC[i].pl, d);
 	}
 	// respondent side
 	{
-		char name[40];
-		int  d = T ? 6 : 4;
+		int d     = T ? 5 : 4;
 		g_resp_nb = 0;
 		snprintf(name, sizeof(name), "resp-aio-d%d", d);
-		if (vx_time_left() > (T ? 200 : 10))
+		if (vx_time_left() > (T ? 100 : 10))
 			explore(name, run_resp, NULL, 0, d);
 		g_resp_nb = 1;
 		d         = T ? 4 : 3;
 		snprintf(name, sizeof(name), "resp-nonblock-d%d", d);
 		if (vx_time_left() > 10)
 			explore(name, run_resp, NULL, 0, d);
+	}
+	for (unsigned i = 0; T && i < nsc; i++) {
+		int d = SC[i].dt;
+		snprintf(name, sizeof(name), "%s-d%d", SC[i].name, d);
+		if (d <= 3 || vx_time_left() < 200)
+			continue;
+		explore(name, run_surv, SC[i].p, SC[i].pl, d);
+	}
+	// deeper runs only when the machine is fast enough today
+	for (unsigned i = 0; T && i < nsc; i++) {
+		if (!SC[i].dx || vx_time_left() < 1000)
+			continue;
+		snprintf(name, sizeof(name), "%s-d%d", SC[i].name, SC[i].dx);
+		explore(name, run_surv, SC[i].p, SC[i].pl, SC[i].dx);
+	}
+	if (T && vx_time_left() > 1000) {
+		g_resp_nb = 0;
+		snprintf(name, sizeof(name), "resp-aio-d6");
+		explore(name, run_resp, NULL, 0, 6);
 	}
 	vx_note("alphabet-surveyor",
 	    "%d letters: survey(sock|ctx) recv(sock|ctx, non-blocking) "
